@@ -183,6 +183,37 @@ def mutate(p, kind, rng):
 
 
 MUTATIONS = ["trunc", "flip", "badutf8", "biglen", "type", "junk", "empty-strings"]
+
+
+def injected_messages():
+    """unsolicited but well-formed-looking messages a hostile peer can slip in at any point"""
+    from paramiko.message import Message
+    from paramiko import common as c
+
+    def msg(t, *fields):
+        m = Message()
+        m.add_byte(t)
+        for kind, v in fields:
+            {"s": m.add_string, "u": m.add_int, "b": m.add_boolean}[kind](v)
+        return m.asbytes()
+
+    return {
+        "service-accept-userauth": msg(c.cMSG_SERVICE_ACCEPT, ("s", "ssh-userauth")),
+        "service-accept-bogus": msg(c.cMSG_SERVICE_ACCEPT, ("s", "bogus")),
+        "userauth-success": msg(c.cMSG_USERAUTH_SUCCESS),
+        "userauth-failure": msg(c.cMSG_USERAUTH_FAILURE, ("s", "password"), ("b", False)),
+        "userauth-banner-badutf8": msg(c.cMSG_USERAUTH_BANNER, ("s", b"\xff\xfe"), ("s", "")),
+        "userauth-info-request": msg(c.cMSG_USERAUTH_INFO_REQUEST, ("s", "t"), ("s", "i"), ("s", ""), ("u", 1),
+                                     ("s", "p"), ("b", False)),
+        "channel-open-success-99": msg(c.cMSG_CHANNEL_OPEN_SUCCESS, ("u", 99), ("u", 0), ("u", 1000), ("u", 1000)),
+        "channel-data-99": msg(c.cMSG_CHANNEL_DATA, ("u", 99), ("s", b"x")),
+        "global-request": msg(c.cMSG_GLOBAL_REQUEST, ("s", "x@y"), ("b", True)),
+        "request-success": msg(c.cMSG_REQUEST_SUCCESS),
+        "newkeys": msg(c.cMSG_NEWKEYS),
+        "ext-info-odd": msg(c.cMSG_EXT_INFO, ("u", 2), ("s", "server-sig-algs"), ("s", b"\xff")),
+        "service-request": msg(c.cMSG_SERVICE_REQUEST, ("s", "ssh-userauth")),
+        "userauth-request-none": msg(c.cMSG_USERAUTH_REQUEST, ("s", "u"), ("s", "ssh-connection"), ("s", "none")),
+    }
 BANNERS = [b"SSH-2.0-\xff\xfe\xfd", b"SSH-1.0-old", b"SSH-2.0", b"NOTSSH", b"SSH-2.0-" + b"A" * 5000,
            b"SSH-9.9-x y z", b"\x00\x01\x02", b"SSH-2.0-x\x00y"]
 
@@ -229,7 +260,10 @@ def fuzz_session(victim, index, kind, seed, kex=None, banner=None, pk=False):
             if k == index:
                 raw = m.asbytes() if hasattr(m, "asbytes") else bytes(m)
                 info["type"] = raw[0] if raw else None
-                m = Message(mutate(raw, kind, rng))
+                if kind.startswith("inject:"):
+                    orig(Message(injected_messages()[kind[7:]]))  # slipped in just before the real packet
+                else:
+                    m = Message(mutate(raw, kind, rng))
             return orig(m)
 
         attacker.packetizer.send_message = send
@@ -469,6 +503,14 @@ def run(ctx):
                             jobs.append((victim, idx, kind, (ctx.seed, victim, idx, kind, s, "pk").__repr__(), kx, None, True))
                             jobs.append((victim, idx, kind, (ctx.seed, victim, idx, kind, s, "ki").__repr__(), kx, None,
                                          "ki" if (idx + s) % 2 == 0 else "ki-srt"))
+        inj = sorted(injected_messages())
+        for idx in range(2, 9):
+            for name in inj:
+                for flavour in (False, True, "ki-srt") if victim == "client" else (False,):
+                    early_srt = flavour in (True, "ki-srt") and idx in (2, 3)  # before the first auth call
+                    if early_srt or (idx + len(name)) % (1 if ctx.thorough else 3) == 0:
+                        jobs.append((victim, idx, "inject:" + name, (ctx.seed, victim, idx, name).__repr__(), None, None,
+                                     flavour))
         for b in BANNERS:
             jobs.append((victim, -1, "banner", "b", None, b, False))
     ctx.rng.shuffle(jobs)
